@@ -230,26 +230,38 @@ def cplxOK (h : ImageHeaderFields) : Bool :=
   | none => true
   | some _ => h.nbands == 2
 
+/-- the raw data of an IMODE B / P / R image: one stored array when there is a single block without pad pixels and without a mask
+    subheader (nitf.py:1938-1954), else the mosaic of the recorded blocks (nitf.py:1956-2002) -/
+def rawBPR (h : ImageHeaderFields) (memmap : Bool) (offs : List Nat) : Seg :=
+  let bd := rawBandDim h.imode
+  let rawShape := getShape h.nrows h.ncols h.nbands bd
+  if (bounds h).length = 1 ∧ addlOffset h = 0 ∧ blockH h = h.nrows ∧ blockW h = h.ncols then
+    mkLeaf memmap h.offset rawShape
+  else
+    .blocks rawShape (mkBlks (blockList h memmap h.nbands bd (bounds h) offs))
+
 /-- `_handle_no_compression` -/
 def assembleBPR (h : ImageHeaderFields) (o : ReaderOptions) (applyFormat : Bool) : Except Err Seg :=
   if h.nbands = 0 then .error .grid else
   if !gridOK h then .error .grid else
   if !cplxOK h then .error .unmodelled else
-  let bd := rawBandDim h.imode
-  let rawShape := getShape h.nrows h.ncols h.nbands bd
-  let bnds := bounds h
-  match flatOffsets h bnds.length with
+  match flatOffsets h (bounds h).length with
   | .error e => .error e
   | .ok offs =>
-    if bnds.length ≠ offs.length then .error .maskTable else
+    if (bounds h).length ≠ offs.length then .error .maskTable else
     match finalEnding offs (blockSize h) (addlOffset h) with
     | none => .error .size
     | some e =>
       if e ≠ h.size then .error .size else
-      if bnds.length = 1 ∧ addlOffset h = 0 ∧ blockH h = h.nrows ∧ blockW h = h.ncols then
-        .ok (wrap (orientBPR h o applyFormat) (mkLeaf o.memmap h.offset rawShape))
-      else
-        .ok (wrap (orientBPR h o applyFormat) (.blocks rawShape (mkBlks (blockList h o.memmap h.nbands bd bnds offs))))
+      .ok (wrap (orientBPR h o applyFormat) (rawBPR h o.memmap offs))
+
+/-- one band of an IMODE S image: a block mosaic of its own, formatted = raw (nitf.py:2162-2199) -/
+def bandSeg (h : ImageHeaderFields) (memmap : Bool) (row : List Nat) : Seg :=
+  .orient [] [0, 1] (.blocks [h.nrows, h.ncols] (mkBlks (blockList h memmap 1 2 (bounds h) row)))
+
+/-- the raw data of an IMODE S image: the bands stacked along the last axis -/
+def rawS (h : ImageHeaderFields) (memmap : Bool) (table : List (List Nat)) : Seg :=
+  .bands 2 (mkSegs (table.map (bandSeg h memmap)))
 
 /-- `_create_data_segment_from_imode_s` + `_handle_imode_s_no_compression` -/
 def assembleS (h : ImageHeaderFields) (o : ReaderOptions) (applyFormat : Bool) : Except Err Seg :=
@@ -257,8 +269,7 @@ def assembleS (h : ImageHeaderFields) (o : ReaderOptions) (applyFormat : Bool) :
   if h.nbpc = 1 ∧ h.nbpr = 1 then .error .imodeS else
   if !gridOK h then .error .grid else
   if !cplxOK h then .error .unmodelled else
-  let bnds := bounds h
-  match bandOffsets h bnds.length with
+  match bandOffsets h (bounds h).length with
   | .error e => .error e
   | .ok table =>
     match finalEnding table.flatten (blockSize h) (addlOffset h) with
@@ -267,9 +278,7 @@ def assembleS (h : ImageHeaderFields) (o : ReaderOptions) (applyFormat : Bool) :
       if e ≠ h.size then .error .size else
       -- BlockAggregateSegment(children = []) raises: every band needs a recorded block
       if table.any (fun row => (present row).isEmpty) then .error .size else
-      .ok (wrap (orientLast h.cplx h.nbands o applyFormat)
-        (.bands 2 (mkSegs (table.map (fun row =>
-          Seg.orient [] [0, 1] (.blocks [h.nrows, h.ncols] (mkBlks (blockList h o.memmap 1 2 bnds row))))))))
+      .ok (wrap (orientLast h.cplx h.nbands o applyFormat) (rawS h o.memmap table))
 
 /-- what lies below the outermost segment: its formatted data is the raw data (`read_raw`) of the outermost one -/
 def below : Seg → Seg
